@@ -152,6 +152,8 @@ func doDump(c *Ctx, what string) {
 				}
 			})
 		}
+	case "funcs":
+		dumpFuncs(c)
 	case "census":
 		cs := BuildCensus(c)
 		kinds := map[string]int{}
